@@ -172,6 +172,12 @@ func (e *Engine) encodeFunction(fn *ssa.Function) *FuncResult {
 			}
 		}
 	}
+	// assumed clauses of an otherwise verified function (listed as assumptions, not proved)
+	if fc != nil {
+		for _, cl := range fc.clauses("assume") {
+			c.trusted["ASSUMED clause ["+cl.Label+"] of "+key] = cl.Text
+		}
+	}
 	// canaries: clauses that must NOT be provable (reachability of the interesting paths)
 	if fc != nil {
 		for _, cl := range fc.clauses("canary") {
